@@ -40,12 +40,26 @@
         segment and its EXT-X-PROGRAM-DATE-TIME (always printed in this variant) the wall clock of x;
      c03_mpegts_date_time_is_first_unit_ntp  the date-time clause on its own;
      c03_mpegts_span_nonvacuous  an H264 + AAC history with two complete segments.
-   Nothing of the property's EXTINF / PROGRAM-DATE-TIME clauses is left to the tie alone. *)
+   Nothing of the property's EXTINF / PROGRAM-DATE-TIME clauses is left to the tie alone.
+   Part DURATION (fMP4 and Low-Latency, hypotheses c_variant c <> MPEGTS and all_ok m0 ops only; leading stream):
+     c03_part_times_are_first_units  every finalized part p of an evicted, listed or the open segment (all_parts s,
+        in order) has samples x :: rest; in the stream's sample log followed by the look-ahead unit they are followed
+        by a unit y (the first sample of the next part, the first buffered sample, or the look-ahead unit);
+        p_start p = timestampToDuration (dts x) and p_end p = timestampToDuration (dts y) at the leading track's rate
+        - no part of the leading stream is empty, so no guard is needed;
+     c03_part_duration_is_media_span  hence every part DURATION the playlist lists (pp_dur: the parts under the last
+        two segments and the trailing parts of the open segment, Low-Latency) = timestampToDuration (dts y) -
+        timestampToDuration (dts x), the media time the part spans on the leading track;
+     c03_part_span_nonvacuous  a Low-Latency history with five listed and two trailing parts of two frames each.
+   Not proved: the part durations listed by NON-leading streams' playlists (they are created with the same
+   rotation timestamps, but MuxAgree.v's shape - ids, gap flags, segment times and wall clocks - does not cover the
+   part lists; an agreement lemma on (p_id, p_start, p_end) per stream is what is missing; checked by the oracle). *)
 From Coq Require Import List ZArith Bool.
 From GoHls Require Import Model.Mux Proofs.MuxStream Proofs.MuxLift Proofs.MuxWindow Proofs.MuxHistory
   Proofs.MuxPlaylist Proofs.MuxTimes Proofs.MuxTargetMono
   Proofs.MuxLog Proofs.MuxLogStep Proofs.MuxGroups Proofs.MuxChain Proofs.MuxSpan Proofs.MuxSpanHist Proofs.MuxSpanAll
-  Proofs.MuxLogTS Proofs.MuxTSStart Proofs.MuxSpanTS Proofs.MuxSpanTSHist.
+  Proofs.MuxLogTS Proofs.MuxTSStart Proofs.MuxSpanTS Proofs.MuxSpanTSHist
+  Proofs.MuxPartIds Proofs.MuxSpanPart Proofs.MuxSpanPartHist.
 Import ListNotations.
 Local Open Scope Z_scope.
 
@@ -268,3 +282,61 @@ Theorem c03_mpegts_span_nonvacuous : exists m0 pl e1 e2,
         = [500000000; 1500000000; 2500000000].
 Proof. exact ts_span_example. Qed.
 Print Assumptions c03_mpegts_span_nonvacuous.
+
+(* ---- each part's DURATION is the media time spanned by the part (leading stream, fMP4 variants) ---- *)
+Theorem c03_part_times_are_first_units : forall c m0 ops,
+  start c = Ok m0 -> c_variant c <> MPEGTS -> all_ok m0 ops ->
+  let m := mux_run m0 ops in
+  let li := leading_index m in
+  forall s t A p B,
+    nth_error (m_streams m) li = Some s -> nth_error (m_tracks m) li = Some t ->
+    all_parts s = A ++ p :: B ->
+    exists x rest y after,
+      p_samples p = x :: rest
+      /\ slog m li ++ pend_list m li = flat_map p_samples A ++ (x :: rest) ++ y :: after
+      /\ p_start p = timestampToDuration (s_dts x) (t_rate (tk_cfg t))
+      /\ p_end p = timestampToDuration (s_dts y) (t_rate (tk_cfg t)).
+Proof. exact part_times_are_first_units. Qed.
+Print Assumptions c03_part_times_are_first_units.
+
+Theorem c03_part_duration_is_media_span : forall c m0 ops,
+  start c = Ok m0 -> c_variant c <> MPEGTS -> all_ok m0 ops ->
+  let m := mux_run m0 ops in
+  let li := leading_index m in
+  forall s t pl,
+    nth_error (m_streams m) li = Some s -> nth_error (m_tracks m) li = Some t -> gen_media_playlist m li = Some pl ->
+    (forall i e k q, nth_error (pl_segs pl) i = Some e -> nth_error (ps_parts e) k = Some q ->
+       exists g p x rest y after,
+         nth_error (st_segments s) i = Some g /\ nth_error (sg_parts g) k = Some p /\ pp_id q = p_id p
+         /\ p_samples p = x :: rest
+         /\ slog m li ++ pend_list m li
+            = flat_map p_samples (flat_map sg_parts (st_evicted s ++ firstn i (st_segments s)) ++ firstn k (sg_parts g))
+              ++ (x :: rest) ++ y :: after
+         /\ pp_dur q = timestampToDuration (s_dts y) (t_rate (tk_cfg t)) - timestampToDuration (s_dts x) (t_rate (tk_cfg t)))
+    /\ (forall k q, nth_error (pl_trailing pl) k = Some q ->
+       exists o p x rest y after,
+         st_open s = Some o /\ nth_error (sg_parts o) k = Some p /\ pp_id q = p_id p
+         /\ p_samples p = x :: rest
+         /\ slog m li ++ pend_list m li
+            = flat_map p_samples (flat_map sg_parts (published s) ++ firstn k (sg_parts o)) ++ (x :: rest) ++ y :: after
+         /\ pp_dur q = timestampToDuration (s_dts y) (t_rate (tk_cfg t)) - timestampToDuration (s_dts x) (t_rate (tk_cfg t))).
+Proof. exact part_duration_is_media_span. Qed.
+Print Assumptions c03_part_duration_is_media_span.
+
+Theorem c03_part_span_nonvacuous : exists m0 s t pl,
+  start ex_cfg = Ok m0 /\ c_variant ex_cfg <> MPEGTS /\ all_ok m0 pt_ops
+  /\ let m := mux_run m0 pt_ops in
+     let li := leading_index m in
+     nth_error (m_streams m) li = Some s /\ nth_error (m_tracks m) li = Some t /\ t_rate (tk_cfg t) = 90000
+     /\ gen_media_playlist m li = Some pl
+     /\ map (fun e => (ps_id e, map (fun q => (pp_id q, pp_dur q)) (ps_parts e))) (skipn 6 (pl_segs pl))
+        = [(7, [(0, 200000000); (1, 200000000); (2, 200000000); (3, 200000000); (4, 200000000)])]
+     /\ map (fun q => (pp_id q, pp_dur q)) (pl_trailing pl) = [(5, 200000000); (6, 200000000)]
+     /\ map (fun p => (p_id p, p_start p, p_end p, map s_dts (p_samples p))) (all_parts s)
+        = [(0, 10000000000, 10200000000, [900000; 909000]); (1, 10200000000, 10400000000, [918000; 927000]);
+           (2, 10400000000, 10600000000, [936000; 945000]); (3, 10600000000, 10800000000, [954000; 963000]);
+           (4, 10800000000, 11000000000, [972000; 981000]); (5, 11000000000, 11200000000, [990000; 999000]);
+           (6, 11200000000, 11400000000, [1008000; 1017000])]
+     /\ (timestampToDuration 900000 90000, timestampToDuration 918000 90000) = (10000000000, 10200000000).
+Proof. exact part_span_example. Qed.
+Print Assumptions c03_part_span_nonvacuous.
